@@ -236,6 +236,28 @@ def rule_press_dedup(prog):
                 res.viol("prev_keys-insert/%s/%s" % (g.norm.split("::")[-1], meth), "%s:%s" % (g.file, t.get("ln")),
                          "prev_keys grows by %s without a preceding !prev_keys.contains(..) test: a key code the layout reports twice is "
                          "remembered twice and its release is sent twice" % meth)
+    # (d) nothing else writes prev_keys: any other call that takes `&mut prev_keys` (mem::swap with the scratch list, dedup,
+    # extend ...) can bring in codes that were not checked one by one
+    from kq.gf2 import root_desc
+    from kq.core import is_place as _isp
+    ALLOWED_MUT = ("clear", "push", "retain", "truncate", "deref_mut", "as_mut_slice", "iter_mut")
+    n_other = 0
+    for g in prog.fns.values():
+        if g.crate != "kanata_state_machine" or g.derive:
+            continue
+        for bi, t in g.calls():
+            meth = (callee_name(t) or "").split("::")[-1]
+            for a in t["args"]:
+                if _isp(a) and (root_desc(g, a) or "").endswith(".prev_keys") and (g.local_ty(a["l"]) or "").startswith("&mut"):
+                    if meth in ALLOWED_MUT or meth in ("append", "extend", "extend_from_slice", "insert"):
+                        continue      # insertions are judged above
+                    n_other += 1
+                    res.inst("prev_keys-writer/%s/%s" % (g.norm.split("::")[-1], meth), only_new_codes=False)
+                    res.oblige(False)
+                    res.viol("prev_keys-writer/%s/%s" % (g.norm.split("::")[-1], meth), "%s:%s" % (g.file, t.get("ln")),
+                             "prev_keys is written by %s(): codes enter the list without the one-by-one !prev_keys.contains(..) test "
+                             "(Vec::dedup only removes *adjacent* duplicates), so a code that the layout reports twice with another "
+                             "code in between is remembered twice and released twice" % meth)
     loop_calls = [(pb, pt) for (pb, pt) in presses + seqs if any(f.dominates(cb, pb) for cb, _ in contains)]
     if not loop_calls:
         res.viol("press-loop/not-skipped", f.loc, "no press of a current key code is preceded by a prev_keys.contains() test: codes "
